@@ -42,12 +42,8 @@ def tlc_cfg(c):
         view="View", invariants=LEMMAS, properties=("Thm_Iters",), action_constraints=("Emit",), deadlock=False)
 
 
-def run_model(c):
-    stats = T.run_tlc("MC_Query", tlc_cfg(c), tag=c["name"], timeout=7200)
-    T.require_ok(stats)
-    if stats["lines"] != stats["generated"] - stats["distinct"]:
-        raise T.MachineryError("%s: %d vectors emitted for %d transitions" % (c["name"], stats["lines"], stats["generated"] - stats["distinct"]))
-    return stats
+def run_model(c, coverage=False):
+    return T.run_vectors("MC_Query", tlc_cfg(c), c["name"], lambda st: st["generated"] - st["distinct"])
 
 
 def _replay(lines, families, lockstep, repo, procs=16):
